@@ -34,6 +34,24 @@ var hostile = []string{
 	"' union select 1 --", "x?y", "x')::jsonpath or true --", "\" == \"\" || \"", "é'è",
 }
 
+// validators in the code base test for a character class somewhere in the text (an upper-case letter, a digit, an asset or
+// address look): every hostile string also comes upper-cased and dressed as an asset / an address / a number
+func init() {
+	seen := map[string]bool{}
+	for _, h := range hostile {
+		seen[h] = true
+	}
+	base := append([]string{}, hostile...)
+	for _, h := range base {
+		for _, v := range []string{strings.ToUpper(h), "USD" + h, "USD/2" + h, "users:1" + h, "42" + h} {
+			if !seen[v] {
+				seen[v] = true
+				hostile = append(hostile, v)
+			}
+		}
+	}
+}
+
 const benign = "zzz"
 
 // address shapes: where the client's text sits inside an address pattern
@@ -415,7 +433,7 @@ func c20() int {
 	cov := evid.Coverage{
 		"evaluations":         int(evals),
 		"distinct_nontrivial": int(accepted),
-		"rule":                fmt.Sprintf("every filter key x operator x ($and/$or/$not wrapper) x PIT on/off x volumes on/off for Get/Count Accounts, Get/Count Transactions, GetAggregatedBalances, GetLogs called on the real store over a recording SQL driver, plus the v2 (JSON body) and v1 (query parameter) HTTP handlers over that store (%d cases) x address shapes x %d hostile strings; the SQL sent is lexed with a PostgreSQL lexer and its token skeleton compared with that of a harmless value of the same shape; non-trivial = requests that were not rejected (%d rejected)", len(cases), len(hostile), rejected),
+		"rule":                fmt.Sprintf("every filter key x operator x ($and/$or/$not wrapper) x PIT on/off x volumes on/off for Get/Count Accounts, Get/Count Transactions, GetAggregatedBalances, GetLogs called on the real store over a recording SQL driver, plus the v2 (JSON body) and v1 (query parameter) HTTP handlers over that store (%d cases) x address shapes x %d hostile strings (a base list, each also upper-cased and prefixed like an asset, an address and a number); the SQL sent is lexed with a PostgreSQL lexer and its token skeleton compared with that of a harmless value of the same shape; non-trivial = requests that were not rejected (%d rejected)", len(cases), len(hostile), rejected),
 		"samples":             samples.Got,
 		"exhaustive":          true,
 		"cases":               len(cases),
